@@ -1,0 +1,9 @@
+//go:build go1.20
+// +build go1.20
+
+package cache
+
+// deleteSame removes the entry of the key unless it was replaced by another one in the meantime.
+func (c *syncMap) deleteSame(key interface{}, entry *TraitEntry) {
+	c.data.CompareAndDelete(key, entry)
+}
